@@ -82,7 +82,7 @@ def run(rep, tier):
     if root is None:
         return
     F = cx.F
-    lm = models.LoopModel(F, root, min_arms=100)
+    lm = models.LoopModel(F, root, min_arms=60)
     pcn, pcid = models.loop_counter_name(F, root)
     extra = {}
     p0 = F.fns[root]["thir"]["params"][0]["pat"]
@@ -191,7 +191,8 @@ def run(rep, tier):
         if not st.feasible:
             continue
         if (st.exit is not None and st.exit[0] == "panic") or any(e[0] == "call" and isinstance(e[1], str) and e[1].startswith("core::panicking") for e in st.effects):
-            cs = sorted(T.show(models.canon(c, pcn, extra)) for c in st.conds)
+            import vmodel
+            cs = sorted(T.show(c) for c in vmodel.simplify_atoms(models.canon(c, pcn, extra) for c in st.conds))
             if models._assertion_failure(st) and cs not in accepted:
                 continue        # other assertions are sites of the inventory (R15.d); an assertion that states the
                                 # length condition itself is the prelude panic written as assert!
